@@ -11,7 +11,7 @@ use oracle::rng::{mix, Rng};
 use serde_json::json;
 
 pub const ID: &str = "C01";
-pub const FAMS: [&str; 7] = ["boundary", "auto-version", "every-length", "random-length", "real-world-prefixes", "crafted", "forced-mode-outside-alphabet"];
+pub const FAMS: [&str; 8] = ["boundary", "auto-version", "every-length", "random-length", "real-world-prefixes", "crafted", "forced-mode-outside-alphabet", "power-of-two-lengths"];
 
 pub fn jobs(ctx: &Ctx) -> Vec<Job> {
     let caps = &ctx.caps;
@@ -63,6 +63,21 @@ pub fn jobs(ctx: &Ctx) -> Vec<Job> {
                         let len = rng.below(cap + 1);
                         push(&mut jobs, FAMS[3], class, mode, Some(level), Some(v), len, &mut k);
                     }
+                }
+            }
+        }
+    }
+    // lengths around every power of two (2^k - 1, 2^k, 2^k + 1), automatic and forced mode, smallest version and 40
+    for m in 0..4usize {
+        for level in 0..4usize {
+            for e in 3..=12u32 {
+                for d in [-1i64, 0, 1] {
+                    let class = if m < 3 { m } else { (e as usize + level) % 3 };
+                    let len = ((1i64 << e) + d) as usize;
+                    if len > caps.cap(40, level, class) {
+                        continue;
+                    }
+                    push(&mut jobs, FAMS[7], class, if m < 3 { Some(m) } else { None }, Some(level), if (e + level as u32) % 2 == 0 { None } else { Some(40) }, len, &mut k);
                 }
             }
         }
@@ -220,7 +235,20 @@ pub fn observe(ctx: &Ctx, st: &mut Stats, job: &Job) {
 
 pub fn run(ctx: &Ctx) -> Report {
     let jobs = jobs(ctx);
-    let st = pool::run(&jobs, ctx.remaining(), |st, job, _| observe(ctx, st, job));
+    let st = pool::run(&jobs, ctx.remaining(), |st, job, i| {
+        observe(ctx, st, job);
+        // every fifth job is followed, on the same thread, by a sibling: same payload, one option changed
+        if i % 5 == 0 {
+            if let Some(sib) = job.sibling(&ctx.caps) {
+                let before = st.violations.len();
+                observe(ctx, st, &sib);
+                st.count("sibling_builds_same_payload_other_option", 1);
+                for v in &mut st.violations[before..] {
+                    v.detail = format!("{} (sibling run: same payload as the job before it on this thread, one option changed; the fault may depend on that history)", v.detail);
+                }
+            }
+        }
+    });
     let mut rep = Report::new(
         st,
         "jobs = (version x level x forced mode|auto) x boundary lengths {0,1,cap(v-1)+1,cap-1,cap} with forced and automatic version, mask rotating over 0..7 and automatic, payload generator rotating over 11 generators (thorough: every length for v<=6, random lengths above) + every entry of a dictionary of real-world prefixes and magic byte sequences (URL schemes in both cases, WIFI:/vCard/MECARD, byte order marks, GS1/AIM escapes, control bytes, multi-byte text) alone and with tails + crafted byte payloads (data area equal to a mask pattern / uniform / stripes; blocks of padding pattern / zeros / identical blocks) + inputs outside the forced mode's alphabet (a symbol, if returned, must still decode to the input); each execution builds through QRBuilder and decodes the module values with the oracle reference decoder; distinct key = (mode,level,version,mask options, len, payload hash); non-trivial = non-empty payload",
